@@ -1,5 +1,6 @@
 // C06 / C07: overflow detection and handling under the overflow tags, on both detection paths
 #include "vh.h"
+#include "vhf.h"
 using namespace cnl;
 using namespace vh;
 static const bool vh_strict_on = (vh::strict = true);
@@ -129,4 +130,35 @@ void pair(Rng& rng)
 #endif
     neg<Tag, L>(lv);
     cvt<Tag, L, R>(lv);
+}
+
+
+// conversion from floating point under an overflow tag
+template<class Tag, class F, class D>
+void cvtf(Rng& rng)
+{
+    std::string tag = TagN<Tag>::name();
+    std::vector<F> fv;
+    auto nb = [&](F x) {
+        vhf::push_f(fv, x);
+        vhf::push_f(fv, std::nextafter(x, std::numeric_limits<F>::infinity()));
+        vhf::push_f(fv, std::nextafter(x, -std::numeric_limits<F>::infinity()));
+    };
+    using L = std::numeric_limits<D>;
+    for (F o : {F(-2), F(-1), F(-0.5), F(0), F(0.5), F(1), F(2), F(64), F(128), F(256)}) {
+        nb(F(F(L::max()) + o));
+        nb(F(F(L::lowest()) + o));
+    }
+    for (D d : vals<D>(rng, 6 * scale_from_env(), sizeof(D) > 4 ? 13 : 5)) {
+        nb(F(d));
+        nb(F(F(d) + F(0.5)));
+    }
+    for (F f : vhf::fvals<F>(rng, 40 * scale_from_env(), false))
+        if (std::isfinite(f)) vhf::push_f(fv, f);
+    for (F x : fv) {
+        printf(VH_TABLE " cvtf " VH_PATH " %s %s %s ", tag.c_str(), vhf::FN<F>::name, tn<D>().c_str());
+        vhf::prf(x);
+        fputs(" => ", stdout);
+        VH_RUN((convert<Tag, D>{}(x)), print_tv)
+    }
 }
